@@ -65,6 +65,9 @@ func (n eqNode) build() any {
 		}
 		return &v
 	case "slice":
+		if n.Cap > 0 { // append-grown slice: capacity larger than length
+			return append(make([]int, 0, n.Cap), n.Vs...)
+		}
 		return append([]int{}, n.Vs...)
 	case "array":
 		var a [3]int
@@ -196,6 +199,11 @@ func (n eqNode) mutants() []eqNode {
 			m := cloneNode(n)
 			m.Vs = append(m.Vs, 99)
 			add(m, "slice one element longer")
+			if len(n.Vs) > 0 {
+				m2 := cloneNode(n)
+				m2.Vs = m2.Vs[:len(m2.Vs)-1]
+				add(m2, "slice one element shorter")
+			}
 		}
 	case "strs":
 		for i := range n.Ss {
@@ -306,7 +314,7 @@ func eqLeaves() []eqNode {
 	return []eqNode{
 		{T: "prim", V: 7, Kind: "int"}, {T: "prim", V: "s"}, {T: "prim", V: 2.5}, {T: "prim", V: true}, {T: "prim", V: uint8(3), Kind: "uint8"},
 		{T: "ptr", Kids: []eqNode{{T: "prim", V: 7, Kind: "int"}}}, {T: "ptr", Kids: []eqNode{{T: "prim", V: "p"}}},
-		{T: "slice", Vs: []int{1, 2, 3}}, {T: "array", Vs: []int{1, 2, 3}}, {T: "strs", Ss: []string{"a", "b"}},
+		{T: "slice", Vs: []int{1, 2, 3}}, {T: "slice", Vs: []int{1, 2}, Cap: 8}, {T: "array", Vs: []int{1, 2, 3}}, {T: "strs", Ss: []string{"a", "b"}},
 		{T: "map", Ss: []string{"x", "y"}, Vs: []int{1, 2}}, {T: "struct", Vs: []int{1}, Ss: []string{"b"}}, {T: "pstruct", Vs: []int{1}, Ss: []string{"b"}},
 		{T: "structE", Vs: []int{1, 2}}, {T: "structU", Vs: []int{1, 2}},
 	}
